@@ -163,6 +163,54 @@ func c04Agreement(t harness.Tree, p string) (clause, detail string) {
 	return "", ""
 }
 
+// c04DoubleTag: a backend double holds a file with an arbitrary tag; the tag announced by GET, HEAD
+// and PROPFIND must be one string, and sent back in If-Match it must reach the backend as a value
+// for which the public helper says "matches".
+func c04DoubleTag(tag string) (clause, detail string) {
+	defer func() {
+		if p := recover(); p != nil {
+			clause, detail = "double-panic", fmt.Sprint(p)
+		}
+	}()
+	fs := harness.NewMemFS()
+	fs.Add(webdav.FileInfo{Path: "/", IsDir: true}, "")
+	fs.Add(webdav.FileInfo{Path: "/f", Size: 4, ETag: tag, MIMEType: "text/plain"}, "DATA")
+	h := &webdav.Handler{FileSystem: fs}
+	get := harness.Serve(h, harness.Req{Method: "GET", Path: "/f"})
+	head := harness.Serve(h, harness.Req{Method: "HEAD", Path: "/f"})
+	ann := get.Header.Get("ETag")
+	if get.Status != 200 || ann == "" || head.Header.Get("ETag") != ann {
+		return "double-get-head", fmt.Sprintf("GET %d %q HEAD %q", get.Status, ann, head.Header.Get("ETag"))
+	}
+	pf := harness.Serve(h, harness.Req{Method: "PROPFIND", Path: "/f", Header: map[string]string{"Depth": "0", "Content-Type": "text/xml"}, Body: pfProp})
+	ms, err := indep.ReadMultiStatus(pf.Body)
+	if err != nil || len(ms.Responses) != 1 {
+		return "double-propfind", fmt.Sprint(err)
+	}
+	pe := ms.Responses[0].Prop(indep.DAV, "getetag")
+	if len(pe) != 1 || pe[0].Node.Text != ann {
+		return "double-propfind-getetag", fmt.Sprintf("GET announces %q, PROPFIND %v", ann, pe)
+	}
+	// the announced string is a quoted string that denotes the tag
+	if got, err := webdav.ConditionalMatch(ann).ETag(); err != nil || got != tag {
+		return "double-announced-tag-not-decodable", fmt.Sprintf("announced %q decodes to %q, %v; backend tag %q", ann, got, err, tag)
+	}
+	// send it back
+	fs.Reset()
+	put := harness.Serve(h, harness.Req{Method: "PUT", Path: "/f", Body: "new", Header: map[string]string{"If-Match": ann}})
+	for _, c := range fs.Snapshot() {
+		if c.Method == "Create" {
+			im := c.Arg.(map[string]interface{})["if_match"].(string)
+			ok, err := webdav.ConditionalMatch(im).MatchETag(tag)
+			if err != nil || !ok {
+				return "double-own-tag-not-accepted-back", fmt.Sprintf("backend got If-Match %q; MatchETag(%q)=%v,%v", im, tag, ok, err)
+			}
+			return "", ""
+		}
+	}
+	return "double-put-not-delivered", fmt.Sprint(put.Status)
+}
+
 // pass-through of both headers to the CalDAV / CardDAV backends
 func c04PassThrough(kind, im, inm string) (clause, detail string) {
 	hdr := map[string]string{}
@@ -295,6 +343,28 @@ func init() {
 			}
 		})
 		base += int64(len(tags))
+		// tags held by a backend double, through headers and XML and back
+		var dtags []string
+		for _, t := range tags {
+			if t == "" || strings.ContainsAny(t, "\x01\x7f\xff") {
+				continue // not representable in a header value / XML 1.0 text
+			}
+			dtags = append(dtags, t)
+		}
+		r.Parallel(len(dtags), func(i int, s *engine.Shard) {
+			for k := 0; k < 4; k++ {
+				s.Transition()
+			}
+			clause, detail := c04DoubleTag(dtags[i])
+			s.Clause("double: announced tag identical in GET/HEAD/PROPFIND, decodable, accepted back")
+			s.Nontrivial("DT/" + dtags[i])
+			s.Outcome("double/" + clause)
+			if clause != "" {
+				s.Violate(engine.Violation{Sig: "C04/" + clause + "/" + tagClass(dtags[i]), Clause: clause, Index: base + int64(i), Kind: "C04", Case: c04Case{Part: "double", Tag: dtags[i]},
+					Expected: "one decodable tag everywhere, accepted back", Observed: detail})
+			}
+		})
+		base += int64(len(dtags))
 		// pass-through
 		hv := []string{"", "*", `"x"`, `"a\"b"`, "unquoted", `W/"x"`, `""`, `"é"`, `"x", "y"`}
 		r.Parallel(len(hv)*len(hv)*2, func(i int, s *engine.Shard) {
@@ -324,6 +394,8 @@ func init() {
 			clause, detail = c04Codec(c.Tag, others)
 		case "passthrough":
 			clause, detail = c04PassThrough(c.Kind, c.IM, c.INM)
+		case "double":
+			clause, detail = c04DoubleTag(c.Tag)
 		}
 		return clause == "", clause + " " + detail
 	})
